@@ -181,8 +181,11 @@ def r18b(model: Model, rr: RuleResult):
     for key, fn in (("minimum", "min"), ("maximum", "max")):
         v = kws.get(key)
         good = False
-        if isinstance(v, ast.Call) and norm(v.func) == fn and isinstance(v.args[0], ast.GeneratorExp):
-            ge = v.args[0]
+        v0 = v.args[0] if isinstance(v, ast.Call) and v.args else None
+        if isinstance(v0, ast.Call) and isinstance(v0.func, ast.Name) and v0.func.id in ("tuple", "list", "sorted") and len(v0.args) == 1 and not v0.keywords:
+            v0 = v0.args[0]  # min/max of the materialised sequence is min/max of its elements
+        if isinstance(v, ast.Call) and norm(v.func) == fn and isinstance(v0, (ast.GeneratorExp, ast.ListComp)):
+            ge = v0
             conds = [norm(i) for g in ge.generators for i in g.ifs]
             p = norm(ge.generators[-1].target)
             good = norm(ge.elt) == f"{p}.position" and any(c in (f"{p}.axisTag == {a}.axisTag", f"{a}.axisTag == {p}.axisTag") for c in conds) \
